@@ -67,7 +67,8 @@ CanonFrom(x, i, acc) ==
        ELSE CanonFrom(x, i + n, acc \o SubSeq(x, i, i + n - 1))
 Canon(x) == CanonFrom(x, 1, <<>>)
 IsAscii(x) == \A i \in 1..Len(x) : x[i] < 128
-StrMatch(e, g) == (e = g /\ IsAscii(e)) \/ Canon(e) = Canon(g)
+\* (two ASCII strings need no canonical form: Canon is quadratic in the length and keys of several thousand bytes occur)
+StrMatch(e, g) == IF IsAscii(e) /\ IsAscii(g) THEN e = g ELSE Canon(e) = Canon(g)
 \* escaping class of an expected string element (locus of a wrong string)
 ByteClass(b) == CASE b = -1 -> "invalid-utf8" [] b < 32 -> "ctl" [] b = 34 -> "quote" [] b = 92 -> "backslash"
                   [] b = 47 -> "slash" [] b \in {60, 62, 38} -> "html" [] b = 127 -> "del" [] b >= 128 -> "multibyte"
@@ -118,17 +119,24 @@ Utf8Enc(cp) ==
   ELSE <<240 + (cp \div 262144), 128 + ((cp \div 4096) % 64), 128 + ((cp \div 64) % 64), 128 + (cp % 64)>>
 Unesc(e) == CASE e = 98 -> 8 [] e = 102 -> 12 [] e = 110 -> 10 [] e = 114 -> 13 [] e = 116 -> 9 [] OTHER -> e
 IsLowSurrAt(x, p) == p + 5 <= Len(x) /\ x[p] = 92 /\ x[p + 1] = 117 /\ Hex4(x, p + 2) >= 56320 /\ Hex4(x, p + 2) <= 57343
+\* first quote or backslash at or after p (the text is grammatical, so there is one); scanned in blocks of 64 so that a string of
+\* several thousand bytes costs neither a recursion per byte nor a scan of the rest of the text
+RECURSIVE NextSpecial(_, _), FirstSpecialIn(_, _)
+FirstSpecialIn(x, p) == IF x[p] = 34 \/ x[p] = 92 THEN p ELSE FirstSpecialIn(x, p + 1)        \* at most 64 steps
+NextSpecial(x, p) == LET hi == IF p + 63 < Len(x) THEN p + 63 ELSE Len(x) IN
+                     IF \E i \in p..hi : x[i] = 34 \/ x[i] = 92 THEN FirstSpecialIn(x, p) ELSE NextSpecial(x, hi + 1)
 RECURSIVE DStr(_, _, _)
-DStr(x, p, acc) ==     \* p: first byte after the opening quote (or where reading continues)
-  LET c == x[p] IN
-  IF c = 34 THEN [v |-> acc, p |-> p + 1]
-  ELSE IF c # 92 THEN DStr(x, p + 1, Append(acc, c))
-  ELSE IF x[p + 1] # 117 THEN DStr(x, p + 2, Append(acc, Unesc(x[p + 1])))
-  ELSE LET cp == Hex4(x, p + 2) IN
-       IF cp >= 55296 /\ cp <= 56319 /\ IsLowSurrAt(x, p + 6)
-       THEN DStr(x, p + 12, acc \o Utf8Enc(65536 + (cp - 55296) * 1024 + (Hex4(x, p + 8) - 56320)))
-       ELSE IF cp >= 55296 /\ cp <= 57343 THEN DStr(x, p + 6, acc \o <<239, 191, 189>>)      \* lone surrogate
-       ELSE DStr(x, p + 6, acc \o Utf8Enc(cp))
+DStr(x, p, acc0) ==     \* p: first byte after the opening quote (or where reading continues)
+  LET q   == NextSpecial(x, p)
+      acc == IF q > p THEN acc0 \o SubSeq(x, p, q - 1) ELSE acc0      \* the plain run before the quote / escape
+  IN
+  IF x[q] = 34 THEN [v |-> acc, p |-> q + 1]
+  ELSE IF x[q + 1] # 117 THEN DStr(x, q + 2, Append(acc, Unesc(x[q + 1])))
+  ELSE LET cp == Hex4(x, q + 2) IN
+       IF cp >= 55296 /\ cp <= 56319 /\ IsLowSurrAt(x, q + 6)
+       THEN DStr(x, q + 12, acc \o Utf8Enc(65536 + (cp - 55296) * 1024 + (Hex4(x, q + 8) - 56320)))
+       ELSE IF cp >= 55296 /\ cp <= 57343 THEN DStr(x, q + 6, acc \o <<239, 191, 189>>)      \* lone surrogate
+       ELSE DStr(x, q + 6, acc \o Utf8Enc(cp))
 RECURSIVE RunEnd(_, _, _)
 RunEnd(x, p, S) == IF p <= Len(x) /\ x[p] \in S THEN RunEnd(x, p + 1, S) ELSE p      \* first position >= p not in S
 RECURSIVE SmallNat(_, _, _, _)
@@ -178,21 +186,25 @@ Denote(x) == DValue(x, SkipWs(x, IF Len(x) >= 3 /\ x[1] = 239 THEN 4 ELSE 1)).v
 \*   [t |-> "null"], [t |-> "bool", v], [t |-> "int", dec |-> Dec], [t |-> "flt", lo, hi, ex |-> Dec] (the float64 is known by
 \*   its exact value and the midpoints to its neighbours), [t |-> "str", v |-> bytes], [t |-> "arr", v], [t |-> "narr"]
 \*   (a nil []any), [t |-> "obj", k |-> keys ascending bytewise, v].   o = [omitnil, omitempty, sort].
-\* What the options say about a member value.  "drop": must be absent, "keep": must be present, "may": ALLOWANCE, the
-\* statement and options.go leave it open -
-\*   * OmitEmpty "skips empty string, slices, maps, and zero values": whether nil, false, 0 count is debatable (DESIGN 6/C04);
-\*   * an object all of whose members are dropped: options.go says it "will not be skipped on writing", pretty drops it;
-\*   * an empty or nil slice / map under OmitNil alone: a nil []any cannot be told from an empty one by length, ojg's own
-\*     reflective path drops both, pretty drops both, oj's map path keeps both.
+\* What the options say about a member value.  "drop": must be absent, "keep": must be present, "may": ALLOWANCE, only where
+\* options.go is silent or ambiguous -
+\*   * OmitNil drops nil members ONLY (an empty slice / map / string, 0, false stay; a typed nil slice is left open);
+\*   * OmitEmpty drops empty strings, slices and maps; "and zero values": whether nil, false, 0 count is debatable (the writers keep
+\*     them for map members) - left open;
+\*   * an object all of whose members are dropped: left open under OmitEmpty only.
 IsZeroNum(e) == (e.t = "int" /\ e.dec.digits = <<>>) \/ (e.t = "flt" /\ e.ex.digits = <<>>)
 RECURSIVE Status(_, _)
 Status(e, o) ==
   CASE e.t = "null" -> IF o.omitnil THEN "drop" ELSE IF o.omitempty THEN "may" ELSE "keep"
     [] e.t = "str" -> IF e.v = <<>> /\ o.omitempty THEN "drop" ELSE "keep"
-    [] e.t = "narr" \/ (e.t = "arr" /\ e.v = <<>>) \/ (e.t = "obj" /\ e.k = <<>>) ->
-         IF o.omitempty THEN "drop" ELSE IF o.omitnil THEN "may" ELSE "keep"
+    \* an empty but non-nil slice / map is not nil: OmitNil alone keeps it (options.go: "OmitNil skips the writing of nil values")
+    [] (e.t = "arr" /\ e.v = <<>>) \/ (e.t = "obj" /\ e.k = <<>>) -> IF o.omitempty THEN "drop" ELSE "keep"
+    \* a nil []any is a typed nil: whether OmitNil alone drops it is not settled by the documentation
+    [] e.t = "narr" -> IF o.omitempty THEN "drop" ELSE IF o.omitnil THEN "may" ELSE "keep"
     [] e.t = "arr" -> "keep"
-    [] e.t = "obj" -> IF (o.omitnil \/ o.omitempty) /\ \A i \in 1..Len(e.v) : Status(e.v[i], o) # "keep" THEN "may" ELSE "keep"
+    \* an object emptied by omission: only OmitEmpty could be read as dropping it ("maps with all empty members will not be
+    \* skipped on writing but will be with alt.Decompose": oj keeps it, pretty drops it); under OmitNil alone it stays
+    [] e.t = "obj" -> IF o.omitempty /\ \A i \in 1..Len(e.v) : Status(e.v[i], o) # "keep" THEN "may" ELSE "keep"
     [] e.t = "bool" -> IF ~e.v /\ o.omitempty THEN "may" ELSE "keep"
     [] OTHER -> IF IsZeroNum(e) /\ o.omitempty THEN "may" ELSE "keep"
 \* Why(e, g, o) = <<>> iff the parsed value g denotes the input e minus the dropped members; otherwise a short tuple naming
